@@ -1,4 +1,295 @@
-//! `super` / `union` endpoints (filled in with C20).
-pub fn dispatch(_endpoint: &str, _fields: &[&str]) -> String {
-    "BAD\tnot implemented".into()
+//! `super` / `union` / `types` endpoints (C20, rule-level half of C06).
+//!
+//! Everything goes through the PUBLIC API of the crate: a `Context` is built from Mamba source text
+//! (`Context::try_from(&[AST])`), names are built with `StringName::new`, `TrueName::from`, `as_nullable`,
+//! `Name::from(&Vec<TrueName>)`, `Name::is_interchangeable`, and the relation is `Name::is_superset_of`,
+//! `Name::union`, `Name::trim_super`.
+//!
+//! Text syntax of names (no blanks):
+//!   name := ['~'] ( '{' [tn (',' tn)*] '}' | tn )        `~` = interchangeable, `{}` = empty name
+//!   tn   := sn ['?']                                      `?` = nullable
+//!   sn   := '(' ')'                                       StringName::empty(), i.e. name "()"
+//!         | '(' name (',' name)* ')'                      tuple  = StringName::new("Tuple", ..)
+//!         | 'Fun(' [name (',' name)*] ')->' name          callable = StringName::callable(args, ret)
+//!         | ident ['[' name (',' name)* ']']              class with generic arguments
+//! Canonical output: members sorted by their text, single non-interchangeable member without braces.
+//!
+//! Requests
+//!   super  <hex src> <A> <B>            -> OK T|F | ERR <hex msg> | CTX <stage> <hex msg>
+//!   union  <A> <B>                      -> OK <canonical A u B>
+//!   types  matrix <hex src> <A1;..;An>  -> OK row1/row2/..    row i = answers of Ai >= Aj, chars T F E
+//!   types  rect <hex src> <As> <Bs>     -> OK rows            row i = answers of Ai >= Bj
+//!   types  unions <As> <Bs>             -> OK u11;u12;../u21;..   canonical Ai u Bj
+//!   types  trim <hex src> <A>           -> OK <canonical trim_super>
+//!   types  trims <hex src> <As>         -> OK t1;t2;..          canonical trim_super of each
+//!   types  show <A>                     -> OK <canonical> <Display of the crate, hex>
+use std::convert::TryFrom;
+
+use mamba::check::context::Context;
+use mamba::check::name::string_name::StringName;
+use mamba::check::name::true_name::TrueName;
+use mamba::check::name::{IsSuperSet, Name, Nullable, TupleCallable, Union};
+use mamba::common::position::Position;
+use mamba::parse::ast::AST;
+
+use crate::sexp::{hex, unhex};
+
+// ---- parser of the text syntax -------------------------------------------------------------------
+
+struct P<'a> {
+    s: &'a [u8],
+    i: usize,
+}
+
+impl<'a> P<'a> {
+    fn peek(&self) -> Option<u8> {
+        self.s.get(self.i).copied()
+    }
+    fn eat(&mut self, c: u8) -> bool {
+        if self.peek() == Some(c) {
+            self.i += 1;
+            true
+        } else {
+            false
+        }
+    }
+    fn expect(&mut self, c: u8) -> Result<(), String> {
+        if self.eat(c) {
+            Ok(())
+        } else {
+            Err(format!("expected '{}' at {}", c as char, self.i))
+        }
+    }
+
+    fn list(&mut self, close: u8) -> Result<Vec<Name>, String> {
+        let mut out = vec![];
+        if self.eat(close) {
+            return Ok(out);
+        }
+        loop {
+            out.push(self.name()?);
+            if self.eat(b',') {
+                continue;
+            }
+            self.expect(close)?;
+            return Ok(out);
+        }
+    }
+
+    fn name(&mut self) -> Result<Name, String> {
+        let inter = self.eat(b'~');
+        let name = if self.eat(b'{') {
+            let mut tns = vec![];
+            if !self.eat(b'}') {
+                loop {
+                    tns.push(self.tn()?);
+                    if self.eat(b',') {
+                        continue;
+                    }
+                    self.expect(b'}')?;
+                    break;
+                }
+            }
+            Name::from(&tns)
+        } else {
+            Name::from(&self.tn()?)
+        };
+        Ok(if inter { name.is_interchangeable(true) } else { name })
+    }
+
+    fn tn(&mut self) -> Result<TrueName, String> {
+        let sn = self.sn()?;
+        let tn = TrueName::from(&sn);
+        Ok(if self.eat(b'?') { tn.as_nullable() } else { tn })
+    }
+
+    fn sn(&mut self) -> Result<StringName, String> {
+        if self.eat(b'(') {
+            let elems = self.list(b')')?;
+            return Ok(if elems.is_empty() { StringName::new("()", &[]) } else { StringName::tuple(&elems) });
+        }
+        let start = self.i;
+        while let Some(c) = self.peek() {
+            if c.is_ascii_alphanumeric() || c == b'_' || c == b'@' {
+                self.i += 1;
+            } else {
+                break;
+            }
+        }
+        if start == self.i {
+            return Err(format!("expected a name at {}", self.i));
+        }
+        let id = std::str::from_utf8(&self.s[start..self.i]).map_err(|e| e.to_string())?.to_string();
+        if id == "Fun" && self.peek() == Some(b'(') {
+            self.i += 1;
+            let args = self.list(b')')?;
+            self.expect(b'-')?;
+            self.expect(b'>')?;
+            let ret = self.name()?;
+            return Ok(StringName::callable(&args, &ret));
+        }
+        let generics = if self.eat(b'[') { self.list(b']')? } else { vec![] };
+        Ok(StringName::new(&id, &generics))
+    }
+}
+
+pub fn parse_name(text: &str) -> Result<Name, String> {
+    let mut p = P { s: text.as_bytes(), i: 0 };
+    let n = p.name()?;
+    if p.i != text.len() {
+        return Err(format!("trailing text at {} in {text}", p.i));
+    }
+    Ok(n)
+}
+
+// ---- canonical printer -----------------------------------------------------------------------------
+
+fn show_sn(sn: &StringName) -> String {
+    let gens = || sn.generics.iter().map(show_name).collect::<Vec<_>>().join(",");
+    if sn.name == "Tuple" && !sn.generics.is_empty() {
+        return format!("({})", gens());
+    }
+    if sn.name == "()" && sn.generics.is_empty() {
+        return "()".into();
+    }
+    if sn.name == "Callable" && sn.generics.len() == 2 && sn.generics[0].names.len() == 1 {
+        let a = sn.generics[0].names.iter().next().unwrap();
+        if a.variant.name.is_empty() && !a.is_nullable && !sn.generics[0].is_interchangeable {
+            let args = a.variant.generics.iter().map(show_name).collect::<Vec<_>>().join(",");
+            return format!("Fun({args})->{}", show_name(&sn.generics[1]));
+        }
+    }
+    if sn.generics.is_empty() {
+        sn.name.clone()
+    } else {
+        format!("{}[{}]", sn.name, gens())
+    }
+}
+
+fn show_tn(tn: &TrueName) -> String {
+    format!("{}{}{}", if tn.is_mutable { "" } else { "fin:" }, show_sn(&tn.variant), if tn.is_nullable { "?" } else { "" })
+}
+
+pub fn show_name(n: &Name) -> String {
+    let mut ms: Vec<String> = n.names.iter().map(show_tn).collect();
+    ms.sort();
+    let body = if ms.len() == 1 { ms.pop().unwrap() } else { format!("{{{}}}", ms.join(",")) };
+    format!("{}{}", if n.is_interchangeable { "~" } else { "" }, body)
+}
+
+// ---- context -----------------------------------------------------------------------------------------
+
+fn context(hexsrc: &str) -> Result<Context, String> {
+    let src = unhex(hexsrc).map_err(|_| "BAD\tsource".to_string())?;
+    let asts: Vec<AST> = if src.trim().is_empty() {
+        vec![]
+    } else {
+        match src.parse::<AST>() {
+            Ok(a) => vec![a],
+            Err(e) => return Err(format!("CTX\tparse\t{}", hex(&format!("{e:?}")))),
+        }
+    };
+    Context::try_from(asts.as_slice()).map_err(|errs| {
+        let msgs: Vec<String> = errs.iter().map(|e| format!("{e}")).collect();
+        format!("CTX\tcontext\t{}", hex(&msgs.join("\u{1e}")))
+    })
+}
+
+fn names(field: Option<&&str>) -> Result<Vec<Name>, String> {
+    let f = field.ok_or("BAD\tmissing list")?;
+    if f.is_empty() {
+        return Ok(vec![]);
+    }
+    f.split(';').map(|t| parse_name(t).map_err(|e| format!("BAD\t{e}"))).collect()
+}
+
+fn sup(ctx: &Context, a: &Name, b: &Name) -> Result<bool, String> {
+    a.is_superset_of(b, ctx, Position::invisible())
+        .map_err(|errs| errs.iter().map(|e| format!("{e}")).collect::<Vec<_>>().join("\u{1e}"))
+}
+
+fn rect(ctx: &Context, xs: &[Name], ys: &[Name]) -> String {
+    let rows: Vec<String> = xs
+        .iter()
+        .map(|a| {
+            ys.iter()
+                .map(|b| match sup(ctx, a, b) {
+                    Ok(true) => 'T',
+                    Ok(false) => 'F',
+                    Err(_) => 'E',
+                })
+                .collect()
+        })
+        .collect();
+    format!("OK\t{}", rows.join("/"))
+}
+
+fn run(endpoint: &str, fields: &[&str]) -> Result<String, String> {
+    match endpoint {
+        "super" => {
+            let ctx = context(fields.first().ok_or("BAD\tmissing source")?)?;
+            let a = parse_name(fields.get(1).ok_or("BAD\tmissing A")?).map_err(|e| format!("BAD\t{e}"))?;
+            let b = parse_name(fields.get(2).ok_or("BAD\tmissing B")?).map_err(|e| format!("BAD\t{e}"))?;
+            Ok(match sup(&ctx, &a, &b) {
+                Ok(v) => format!("OK\t{}", if v { "T" } else { "F" }),
+                Err(m) => format!("ERR\t{}", hex(&m)),
+            })
+        }
+        "union" => {
+            let a = parse_name(fields.first().ok_or("BAD\tmissing A")?).map_err(|e| format!("BAD\t{e}"))?;
+            let b = parse_name(fields.get(1).ok_or("BAD\tmissing B")?).map_err(|e| format!("BAD\t{e}"))?;
+            Ok(format!("OK\t{}", show_name(&a.union(&b))))
+        }
+        "types" => match fields.first().copied() {
+            Some("matrix") => {
+                let ctx = context(fields.get(1).ok_or("BAD\tmissing source")?)?;
+                let xs = names(fields.get(2))?;
+                Ok(rect(&ctx, &xs, &xs))
+            }
+            Some("rect") => {
+                let ctx = context(fields.get(1).ok_or("BAD\tmissing source")?)?;
+                let xs = names(fields.get(2))?;
+                let ys = names(fields.get(3))?;
+                Ok(rect(&ctx, &xs, &ys))
+            }
+            Some("unions") => {
+                let xs = names(fields.get(1))?;
+                let ys = names(fields.get(2))?;
+                let rows: Vec<String> = xs
+                    .iter()
+                    .map(|a| ys.iter().map(|b| show_name(&a.union(b))).collect::<Vec<_>>().join(";"))
+                    .collect();
+                Ok(format!("OK\t{}", rows.join("/")))
+            }
+            Some("trim") => {
+                let ctx = context(fields.get(1).ok_or("BAD\tmissing source")?)?;
+                let a = parse_name(fields.get(2).ok_or("BAD\tmissing A")?).map_err(|e| format!("BAD\t{e}"))?;
+                Ok(format!("OK\t{}", show_name(&a.trim_super(&ctx))))
+            }
+            Some("trims") => {
+                let ctx = context(fields.get(1).ok_or("BAD\tmissing source")?)?;
+                let xs = names(fields.get(2))?;
+                let out: Vec<String> = xs.iter().map(|a| show_name(&a.trim_super(&ctx))).collect();
+                Ok(format!("OK\t{}", out.join(";")))
+            }
+            Some("show") => {
+                let a = parse_name(fields.get(1).ok_or("BAD\tmissing A")?).map_err(|e| format!("BAD\t{e}"))?;
+                Ok(format!(
+                    "OK\t{}\t{}\t{}{}",
+                    show_name(&a),
+                    hex(&format!("{a}")),
+                    if a.is_nullable() { "nullable " } else { "" },
+                    if a.is_null() { "null" } else { "" }
+                ))
+            }
+            other => Err(format!("BAD\tunknown types operation {other:?}")),
+        },
+        other => Err(format!("BAD\tunknown endpoint {other}")),
+    }
+}
+
+pub fn dispatch(endpoint: &str, fields: &[&str]) -> String {
+    match run(endpoint, fields) {
+        Ok(s) | Err(s) => s,
+    }
 }
